@@ -126,6 +126,13 @@ def run(ctx):
                 ctx.check(good, "C12-R2", "some-payload", "`Some(v)` returns exactly the Ok value of the parse (no cast, clamp or arithmetic)", ex.where(bb))
             elif rv["k"] == "agg" and rv.get("variant") == "None":
                 pass
+            elif rv["k"] == "use" and op_place(rv["op"]) is not None and not op_place(rv["op"])["p"] and \
+                    (lambda d_: d_ is not None and d_[1] == "call" and d_[2].matches(r"Result::<.*>::ok$") and
+                     (lambda r_: r_ and r_[0] == "call" and r_[1].matches(r"::parse$") and "parse::<u32>" in r_[1].full)(pure_chain_root(ex, d_[2].args[0]) if d_[2].args else None)
+                     )(single_def(ex, op_place(rv["op"])["l"])):
+                # `.and_then(|c| c[1].parse::<u32>().ok())` after desugaring: the arm's value is parse(..).ok()
+                n_some += 1
+                ctx.ok("C12-R2", "this arm's value is `parse::<u32>(..).ok()` (Ok(v) → Some(v), Err → None)", ex.where(bb))
             else:
                 ctx.bad("C12-R2", "odd-return", "unexpected return %s" % rv_str(rv), ex.where(bb))
         # equivalent idiom: `parse::<u32>().ok()` as the function's value
